@@ -61,6 +61,13 @@ def scenarios(ctx):
             s['meta']['generator_cleanup_fails'] = True
             s['meta']['k'] = 0 if kind != 'none' else s['meta']['k']
             scs.append(s)
+    # -i with an output file whose directory does not exist yet when the periodic dump is due (that dump fails in the timer thread); the
+    # program creates it before it ends: no timer thread may outlive main
+    for mode in ('l',):
+        s = kplib.scenario(mode, 'none', extra_opts=['-i', '3', '-o', 'late_dir/out.bin'],
+                           extra_prog='import time, os\ntime.sleep(3.4)\nos.makedirs("late_dir", exist_ok=True)')      # (the next tick lies beyond the grace period)
+        s['meta']['periodic_dump_fails'] = True
+        scs.append(s)
     # an imported module selected for auto-profiling (-p): every registration call the rewrite inserts switches the profiler on, by count,
     # for the rest of the run — it has to be off again when main returns or raises
     for mode in ('l', 'lm', 'lb'):
@@ -192,6 +199,8 @@ def run(ctx):
             exp_dump = kplib.count(pred['log'], 'prof.dump_stats(options.outfile)') == 1
             if meta.get('outfile') == 'unwritable':
                 wrote = exp_dump        # attempted, and failed: nothing is written
+            if meta.get('periodic_dump_fails'):
+                wrote = exp_dump        # (the file goes into a sub-directory the collector of outputs does not look into)
             if not real['outcome'].startswith(exp_out) or wrote != exp_dump:
                 kdiff += 1
                 if not oracle(real):
